@@ -63,6 +63,13 @@ PROP(C02) __CPROVER_ensures((OK && g_eval_n == 2 && NUM_TYPED(A1) && NUM_TYPED(A
 #define POW_TYPED(a) (V_LEVEL(a) == 0 && (V_MAJOR(a) == INTEGER || V_MAJOR(a) == NUMERIC || V_MAJOR(a) == IMAGINARY))
 PROP(C02) __CPROVER_ensures((OK && g_eval_n == 2 && POW_TYPED(A1) && POW_TYPED(A2)) ==> (V_IS(RET, ((V_MAJOR(A1) == IMAGINARY || V_MAJOR(A2) == IMAGINARY) ? IMAGINARY : (V_MAJOR(A1) == INTEGER && V_MAJOR(A2) == INTEGER) ? INTEGER : NUMERIC)) && VALID_TAG(RET)))
 #endif
+#ifdef BUILTIN_IS_ISNUM
+/* C10: isnum(s) on a string or bytes is TRUE exactly when num(s) would succeed: the text is a numeral AND lies in the range of a decimal
+ * (the two facts about the text are the ghost state of the std::stod / strtod model, containers.h); a number is a number; anything else is not */
+PROP(C10) __CPROVER_ensures((OK && g_eval_n == 1 && (V_IS(A1, LITERAL) || V_IS(A1, TABCHAR)) && !V_ISNULL(A1)) ==> (g_sto_calls >= 1 && !V_ISNULL(RET) && ((RET->_value.i & 0xff) != 0) == (g_sto_is_numeral && g_sto_in_range)))
+PROP(C10) __CPROVER_ensures((OK && g_eval_n == 1 && (V_IS(A1, INTEGER) || V_IS(A1, NUMERIC)) && !V_ISNULL(A1)) ==> (!V_ISNULL(RET) && (RET->_value.i & 0xff) == 1))
+PROP(C10) __CPROVER_ensures((OK && g_eval_n == 1 && V_ISNULL(A1)) ==> (!V_ISNULL(RET) && (RET->_value.i & 0xff) == 0))
+#endif
 #ifdef BUILTIN_IS_INT
 /* C03 / C10: int(x).  A decimal (or the real part of a complex) converts exactly when it lies in [-2^63, 2^63) -- truncated
  * toward zero -- and is OUT_OF_RANGE otherwise (2^63 itself and NaN included); an integer is handed through; a boolean is 0 / 1;
